@@ -741,3 +741,23 @@ func trunc(s string, n int) string {
 	}
 	return s
 }
+
+func resToObs(res interface{}) blockObs {
+	var o blockObs
+	er, ok := res.(gtypes.ExecuteResult)
+	if !ok {
+		return o
+	}
+	for _, v := range er.ValidTxs {
+		o.valid = append(o.valid, append([]byte{}, v...))
+	}
+	for _, iv := range er.InvalidTxs {
+		o.invalid = append(o.invalid, append([]byte{}, iv.Bytes...))
+		msg := "<nil>"
+		if iv.Error != nil {
+			msg = iv.Error.Error()
+		}
+		o.invalidErr = append(o.invalidErr, msg)
+	}
+	return o
+}
